@@ -110,6 +110,10 @@ impl FileSystem for OverlayFS {
     }
 
     fn create_dir(&self, path: &str) -> VfsResult<()> {
+        if path.is_empty() {
+            // the root always exists
+            return Err(VfsErrorKind::DirectoryExists.into());
+        }
         self.ensure_has_parent(path)?;
         if self.exists(path)? {
             // the entry may exist only in a lower layer, where the write layer cannot see it
